@@ -261,6 +261,111 @@ def replay(behaviours, rng: random.Random):
     return traces
 
 
+def decoder_kwargs(cfg: dict, rng: random.Random):
+    """constructor arguments of the filtered decoder (or client) and of its unfiltered twin"""
+    entries = [PGN[k] for k in sorted(cfg["nums"])] + [spell(IDS[k], rng) for k in sorted(cfg["ids"])]
+    mfrs = [spell(MFR[m], rng) for m in sorted(cfg["mfrs"])]
+    common = {"build_network_map": bool(cfg["netmap"])}
+    if cfg["mfrMode"] in ("exclude", "both"):
+        common["exclude_manufacturer_code"] = mfrs
+    if cfg["mfrMode"] == "include":
+        common["include_manufacturer_code"] = mfrs
+    if cfg["mfrMode"] == "both":
+        common["include_manufacturer_code"] = [spell(MFR[m], rng) for m in sorted(cfg.get("mfrsIn", []))]
+    kw = dict(common)
+    if cfg["mode"] == "exclude":
+        kw["exclude_pgns"] = entries
+    elif cfg["mode"] == "include":
+        kw["include_pgns"] = entries
+    return kw, common, entries
+
+
+def replay_through_client(kind: str, cfg: dict, hist: list, rng: random.Random, relink_before=()):
+    """One history through a real gateway client on the virtual-time loop: the client, built with the configuration's
+    options, takes the place of the filtered decoder (what it hands to the receive callback after each packet is the
+    observation), an unfiltered stand-alone decoder gets the same frames directly.  Before the steps listed in relink_before
+    the gateway ends the link and the client's next link carries the rest: a lost link is not an input of the decoder model -
+    whatever the decoder learnt stays.  Returns a trace in the format of replay()."""
+    import nmea2000.decoder as D
+    from nmea2000.decoder import NMEA2000Decoder
+    from . import clientrun as cr
+    from . import vloop
+    for nm in (1, 2, 3):
+        for s_ in SRC:
+            NAMES[int.from_bytes(name_payload(nm, s_), "little")] = nm
+    kw, common, entries = decoder_kwargs(cfg, rng)
+    fmt = {"ebyte": "tcp", "waveshare": "usb", "yd": "yd", "actisense": "acti-late"}[kind]
+    orig_dt, D.datetime = D.datetime, Clock
+    Clock.offset = _dt.timedelta(0)
+    try:
+        sess = vloop.Session()
+        counter = [0]
+        steps, marks = [], []          # (time, model input, frame) ; deliveries seen right after each step
+
+        def packet(fr: Frame) -> bytes:
+            pgn, src, dst, prio, data = fr
+            pf = (pgn >> 8) & 0xFF
+            ident = (prio << 26) | (((pgn & 0x3FF00) | dst if pf < 240 else pgn) << 8) | src
+            if kind == "ebyte":
+                return fp.ebyte_packet(pgn, src, dst, prio, bytes(data))
+            if kind == "waveshare":
+                return cr.usb_packet(ident, bytes(data))
+            if kind == "yd":
+                return b"23:59:58.500 R %08X %s\r\n" % (ident, " ".join("%02X" % b for b in data).encode())
+            return b"A007200.250 %05X %05X %s\r\n" % ((src << 12) | (dst << 4) | prio, pgn, bytes(data).hex().upper().encode())
+
+        def scenario(s):
+            s.user("connect", s.client.connect)
+            t = 9.0                      # (after the clients' own seeding requests)
+            for i, ev in enumerate(hist):
+                if i in relink_before:
+                    s.at_time(t, lambda: s.eof(max(s.readers)))
+                    t += 3.0
+                if ev["k"] == "window":
+                    s.at_time(t, lambda: setattr(Clock, "offset", _dt.timedelta(minutes=11)))
+                    steps.append((t, None, None))
+                    t += 0.5
+                    continue
+                fr, min_ = packet_for(ev, counter)
+                steps.append((t, min_, fr))
+                s.at_time(t, lambda fr=fr: s.feed(max(s.readers), packet(fr)))
+                s.at_time(t + 0.5, lambda: marks.append(len(s.delivered)))
+                t += 1.0
+        sess.run(vloop.make_client_factory(kind, **kw), scenario, until=9.0 + 4.0 * len(hist) + 5.0)
+        evs, window, seen = [], True, 0
+        it = iter(marks)
+        for t, min_, fr in steps:
+            if min_ is None:
+                Clock.offset = _dt.timedelta(minutes=11)
+                window = False
+                continue
+            upto = next(it, seen)
+            got = sess.delivered[seen:upto]
+            seen = upto
+            obsF = observe(None, lambda d: got[-1] if got else None)
+            if len(got) > 1:
+                obsF["ret"], obsF["err"] = "err", f"{len(got)} messages delivered for one packet"
+            # (the unfiltered twin sees the frames in the same order, at its own clock: the window is the model's)
+            evs.append({"in": uniform(min_), "window": window, "who": "FU", "fmt": f"client-{kind}",
+                        "obsF": obsF, "obsU": None, "_fr": fr})
+        # the twin is fed afterwards with the clock replayed
+        Clock.offset = _dt.timedelta(0)
+        U = NMEA2000Decoder(**common)
+        k = 0
+        for t, min_, fr in steps:
+            if min_ is None:
+                Clock.offset = _dt.timedelta(minutes=11)
+                continue
+            evs[k]["obsU"] = observe(U, lambda d, fr=fr: deliver(d, fr, fmt))
+            del evs[k]["_fr"]
+            k += 1
+        U.close()
+    finally:
+        D.datetime = orig_dt
+        Clock.offset = _dt.timedelta(0)
+    return {"cfg": cfg, "evs": evs, "entries": [str(e) for e in entries]}
+
+
 def uniform(i: dict) -> dict:
     """TLC compares records field by field: give every input the same shape"""
     base = {"k": "", "pgn": "", "src": 0, "tok": [], "seq": 0, "fc": 0, "len": 0, "chunk": [], "name": 0}
